@@ -37,6 +37,11 @@ func NewFV(eng *Engine, fn *ssa.Function, spec *FuncSpec) *FV {
 
 func (fv *FV) oblige(st *State, kind, detail string, pos token.Pos, goal Term, clause string) {
 	if goal.S == "true" {
+		// syntactically valid: recorded (so that the ledger knows the obligation exists), no solver needed
+		o := &Obligation{Func: fv.short, Kind: kind, Detail: detail, Pos: pos, PosStr: fv.eng.pos(pos),
+			script: st.script, goal: goal, Path: st.path, Clause: clause, Status: "unsat", Solver: "syntactic"}
+		o.id = len(fv.obls)
+		fv.obls = append(fv.obls, o)
 		return
 	}
 	o := &Obligation{Func: fv.short, Kind: kind, Detail: detail, Pos: pos, PosStr: fv.eng.pos(pos),
@@ -316,6 +321,27 @@ func (fv *FV) assignHeapStatic(e Expr, spec *FuncSpec, fn *ssa.Function, c *ssa.
 		}
 		return nil, nil, false
 	case *ECall:
+		if gs := fv.ghostSpec(x.Fn, spec.PkgName); gs != nil {
+			rt, err := fv.eng.resolveType(gs.Result, gs.PkgName)
+			if err != nil {
+				return nil, nil, false
+			}
+			return []string{ghostHeapName(gs)}, []string{arraySort(SInt, fv.sortOf(rt))}, true
+		}
+		if x.Fn == "anyobj" && len(x.Args) == 1 {
+			// anyobj(T.f): field f of every object of type T
+			if sel, ok := x.Args[0].(*ESel); ok {
+				if id, ok := sel.X.(*EIdent); ok {
+					if gt, err := fv.eng.resolveType(id.Name, spec.PkgName); err == nil {
+						if path := findFieldPath(gt, sel.Name); len(path) == 1 {
+							stt := gt.Underlying().(*types.Struct)
+							return []string{fieldHeapName(gt, path[0])}, []string{arraySort(SInt, fv.sortOf(stt.Field(path[0]).Type()))}, true
+						}
+					}
+				}
+			}
+			return nil, nil, false
+		}
 		if x.Fn == "mapsof" && len(x.Args) == 1 {
 			if s, ok := x.Args[0].(*EStr); ok {
 				if gt, err := fv.eng.resolveType(s.V, spec.PkgName); err == nil {
@@ -507,8 +533,19 @@ func (fv *FV) functypeSpec(t types.Type) *FuncSpec {
 	if n, ok := t.(*types.Named); ok && n.Obj().Pkg() != nil {
 		return fv.eng.specs.Funcs[n.Obj().Pkg().Name()+"."+n.Obj().Name()]
 	}
+	if _, ok := t.(*types.Signature); ok {
+		want := normSig(typeShort(t))
+		for _, k := range sortedKeys(fv.eng.specs.Funcs) {
+			s := fv.eng.specs.Funcs[k]
+			if s.Kind == "functype" && s.Sig != "" && normSig(s.Sig) == want {
+				return s
+			}
+		}
+	}
 	return nil
 }
+
+func normSig(s string) string { return strings.Join(strings.Fields(s), " ") }
 
 // ---- verification driver ------------------------------------------------
 
@@ -534,6 +571,10 @@ func (fv *FV) Verify() {
 		el := f.Type().(*types.Pointer).Elem()
 		id := CellID{Frame: 0, A: f}
 		st.cells[id] = tv(fv.paramConst(st, "fv_"+f.Name(), el))
+		if fv.freeVarEntry == nil {
+			fv.freeVarEntry = map[string]Term{}
+		}
+		fv.freeVarEntry[f.Name()] = st.cells[id].T
 		fr.Regs[f] = SymVal{K: VCellPtr, Cell: id, Root: el}
 	}
 	if fn.Signature.Recv() != nil && len(fn.Params) > 0 {
